@@ -65,11 +65,11 @@ func (c17) Budget(tier string) runner.Budget {
 
 func (c17) Describe() runner.Description {
 	return runner.Description{
-		Rule:        "each plan: 10..150 operations on a real TxPool over <=5 senders with nonce-checked and request-id transactions (nonces in sequence, repeated, ahead; some plans with >200 pending): AddTransaction (fresh, duplicate, already executed, evicted), PackForCast against a state whose nonces the plan sets, MarkExecuted (receipts + evictions), UnMarkExecuted (reorg), GetTransaction / IsExisted / GetExecuted, simulated firings of the pending-cycle ticker (expiry), restart of the node over the same disk. Reference = sequential pool (pending in insertion order with age, executed map, evicted set). After every op: membership lookups agree; a pack has no duplicates, <=200 entries, no executed hash, each sender's nonce-checked transactions in ascending nonce order and none ahead of state nonce + that sender's already placed in-sequence transactions, and (pending <=200) contains every eligible pending transaction; after unmark the block's transactions are pending and packable again; after re-mark they are not; executed records survive a restart. distinct_nontrivial = distinct op-kind sequences containing mark and unmark.",
+		Rule:        "8% chain-level plans: a booted node with its write handler receives 0-3 gateway transactions (verified, PRE-EXECUTED on the node's shared latest-state object, sent to the pool), 1-4 nonce-checked transactions at nonce offsets 0..3 from the canonical state nonce are added to the pool, then the node proposes (CastBlock), inserts its proposal and proposes again, 1-3 rounds as ONE task of the seeded scheduler with 0-3 allowed preemptions (a goroutine the chain starts while inserting a block may still be pending at the next proposal); what each proposal packed (its transactions + evicted list) must contain no duplicate, nothing executed in a canonical block, and no nonce-checked transaction ahead of the sender's next expected nonce counted from the canonical state of the head. Other plans: 10..150 operations on a real TxPool over <=5 senders with nonce-checked and request-id transactions (nonces in sequence, repeated, ahead; some plans with >200 pending): AddTransaction (fresh, duplicate, already executed, evicted), PackForCast against a state whose nonces the plan sets, MarkExecuted (receipts + evictions), UnMarkExecuted (reorg), GetTransaction / IsExisted / GetExecuted, simulated firings of the pending-cycle ticker (expiry), restart of the node over the same disk. Reference = sequential pool (pending in insertion order with age, executed map, evicted set). After every op: membership lookups agree; a pack has no duplicates, <=200 entries, no executed hash, each sender's nonce-checked transactions in ascending nonce order and none ahead of state nonce + that sender's already placed in-sequence transactions, and (pending <=200) contains every eligible pending transaction; after unmark the block's transactions are pending and packable again; after re-mark they are not; executed records survive a restart. distinct_nontrivial = distinct op-kind sequences containing mark and unmark.",
 		Assumptions: []string{"the pending pool is memory-only by design: a restart empties it (model follows)", "the per-block limit (200) is the property text's 'per-block limit'"},
 		Real:        []string{"service/transaction_pool.go", "service/simple_container.go (gmap list map, ring ageing)", "goleveldb executed store over simulated storage", "types transaction codec (executed records)"},
 		Stub:        []string{"chain (the harness plays it: builds headers/receipts)", "ConsensusHelper", "network"},
-		FaultKinds:  []string{"restart", "ticker_fire", "reorg_unmark", "duplicate_add", "task_switch", "executed_and_evicted_same_tx"},
+		FaultKinds:  []string{"restart", "ticker_fire", "reorg_unmark", "duplicate_add", "task_switch", "executed_and_evicted_same_tx", "chain_level_pack", "gateway_tx_pre_executed_on_latest_state"},
 	}
 }
 
@@ -80,6 +80,13 @@ func (c17) Gen(seed uint64, tier string) json.RawMessage {
 			Mode string   `json:"mode"`
 			Conc c17cPlan `json:"conc"`
 		}{"conc", c17cGen(r, seed)})
+		return b
+	}
+	if r.Chance(0.08) {
+		b, _ := json.Marshal(struct {
+			Mode  string       `json:"mode"`
+			Chain c17ChainPlan `json:"chain"`
+		}{"chain", c17ChainGen(r, seed)})
 		return b
 	}
 	p := c17Plan{Seed: seed}
@@ -180,14 +187,18 @@ func (m *c17Model) add(h common.Hash) bool {
 const c17PerBlock = 200 // "the per-block limit of transactions"
 
 type c17Wrap struct {
-	Mode string   `json:"mode"`
-	Conc c17cPlan `json:"conc"`
+	Mode  string       `json:"mode"`
+	Conc  c17cPlan     `json:"conc"`
+	Chain c17ChainPlan `json:"chain"`
 }
 
 func (c17) Exec(raw json.RawMessage, st *simrt.Stats, log *simrt.Log) *simrt.Violation {
 	var w c17Wrap
 	if json.Unmarshal(raw, &w) == nil && w.Mode == "conc" {
 		return c17cExec(w.Conc, st, log)
+	}
+	if w.Mode == "chain" {
+		return c17ChainExec(w.Chain, st, log)
 	}
 	var p c17Plan
 	if err := json.Unmarshal(raw, &p); err != nil {
